@@ -21,7 +21,7 @@ Section Handles.
 
   Lemma f_write_at_ok b off : step_ok s (fst (f_write_at s v f b off)).
   Proof.
-    unfold f_write_at. destruct (Z.ltb off 0); [stay|].
+    unfold f_write_at. destruct (has (hd_mode f) OpenAppend); [stay|]. destruct (Z.ltb off 0); [stay|].
     destruct b as [|b0 b']; [stay|].
     destruct (hd_name f); [stay|].
     destruct (hd_node f) as [c|]; [|stay].
